@@ -6,8 +6,11 @@
 //!   case <n>
 //!   prog <io|ooo> <done0> <P…>   level A: a builder program run against `StreamBuilder::new(None | Some(vec![0]))`
 //!                                through the public API, then `finish()`                         -> ok
-//!   view <io|ooo> <done0> <V…>   level B: a view built from the description, rendered with
-//!                                `to_html_stream_in_order()` / `to_html_stream_out_of_order()`   -> ok
+//!   view <io|ooo>[b][n] <done0> <V…>  level B: a view built from the description, rendered with
+//!                                `to_html_stream_in_order()` / `to_html_stream_out_of_order()`; `b`: the `_branching`
+//!                                variants (observable: a run of branch marker comments as one `<!--b-->`; ids and
+//!                                nesting are checked here on the real text); `n`: `provide_nonce()` first (leptos
+//!                                `nonce` feature; the random nonce is shown as `NONCE`)                -> ok
 //!   viewf <io|ooo> <done0> <V…>  level B, free interleaving: `poll` does NOT drain the executor first and prints `-` (the model
 //!                                cannot know which boundary futures are ready then); only the oracles and the final document count -> ok
 //!   drain                        level B: run the executor until idle                                       -> ok
@@ -23,7 +26,10 @@
 //!   | b[ P… ] StreamBuilder::new(clone_id()) + body + append (what ErrorBoundary does);  <f> = k or k.k2 (all of them)
 //! V tokens: t<hex> text | e<tag>[ V… ] element | q[ V… ] tuple | l[ V… ] Vec | s<k>[ V… ] Suspend::new(async{rx_k.await; (V…)})
 //!   | S<fb|->[ V… ] <Suspense fallback=<u>fb</u>|()> | T<fb|->[ V… ] <Transition> | A<k>[ V… ] <Await future=rx_k>
-//!   | B[ V… ] <ErrorBoundary>
+//!   | B[ V… ] <ErrorBoundary> | u<k>[ V… ] Suspend awaiting an OnceResource | g<o|r|d><k>[ V… ] `move || res.get().map(|_| (V…))`
+//!   on an OnceResource / Resource / AsyncDerived created before the view is built | L / M a LocalResource read / awaited
+//!   | W<k> a LocalResource awaited after future k | I[ V… ] tachys Island | C[ V… ] tachys IslandChildren
+//!   <Await> on an even future is `blocking`; every <Transition> gets a `set_pending` signal
 use futures::channel::oneshot;
 use futures::future::{FutureExt, Shared};
 use futures::Stream;
